@@ -419,7 +419,7 @@ theorem verifyGroupKind_ignores_version (ref ref' : Ref) (k g : String)
 
 /-! ## 1. totality (C09-style, attached to C10) -/
 
-/-- **`finder_total`** — no cluster of admissible objects (replicas defaulted, revision fields strings) and no reference
+/-- **`finder_total`** — no cluster of admissible objects (replicas of the typed kinds defaulted; unstructured objects arbitrary) and no reference
     makes `GetWorkloadForRef` panic, for a Rollout whose strategy the validating webhook admits -/
 theorem finder_total (c : Cluster) (s : Strategy) (ns : String) (ref : Ref)
     (hadm : admissible c = true) (hs : strategyOK s = true) : getWorkloadForRef c s ns ref ≠ .panic := by
@@ -444,6 +444,25 @@ def witnessCluster : Cluster :=
     failGet := [], failListRS := none, failListDeploy := false, filter := true }
 
 example : getWorkloadForRef witnessCluster ⟨false, some false⟩ "ns1" ⟨"apps/v1", "ReplicaSet", "wl"⟩ = .nothing := by decide
+
+/-- a `status.updateRevision` / `currentRevision` of another JSON type (number, bool, object) reads exactly like an absent
+    one — it is not a crash (fixed: `parseStatusStringFromUnstructured` used the unchecked assertion `value.(string)`) -/
+theorem nonstring_revision_reads_as_absent (u : Unstr) :
+    parseUnstr u =
+      parseUnstr { u with updateRevision := (match u.updateRevision with | .wrongType => .absent | x => x),
+                          currentRevision := (match u.currentRevision with | .wrongType => .absent | x => x) } := by
+  unfold parseUnstr
+  cases u.updateRevision <;> cases u.currentRevision <;> rfl
+
+/-- the StatefulSet-like finder on an unstructured object never panics — whatever its fields are -/
+theorem unstructured_never_panics (c : Cluster) (ns : String) (ref : Ref) (gvk : GVK)
+    (h : getEmptyWorkloadObject c.filter (fromAPIVersionAndKind ref.apiVersion ref.kind) = some (.unstructured gvk)) :
+    getStatefulSetLikeWorkload c ns ref ≠ .panic := by
+  intro hp
+  unfold getStatefulSetLikeWorkload at hp
+  rw [h] at hp
+  obtain ⟨x, _, hx⟩ := afterGet_panic _ _ hp
+  simp [parseUnstr] at hx
 
 /-! ## the run-time oracles hold of the model's own output -/
 
@@ -644,5 +663,21 @@ example : (getLatestCanaryDeployment depCluster depCluster.deployments.head!).to
 /-- revision suffix on names with 0, 1, 2 dashes and a trailing dash -/
 example : revSuffix? "6f8c" = some "6f8c" ∧ revSuffix? "wl-6f8c" = some "6f8c" ∧ revSuffix? "my-wl-6f8c" = some "6f8c" ∧
     revSuffix? "wl-" = some "" ∧ revSuffix? "" = some "" := by decide
+
+
+/-- a StatefulSet-like custom resource whose `status.updateRevision` is not a string and whose `currentRevision` is absent:
+    admissible (nothing is assumed about it), and the finder reports empty revisions instead of crashing -/
+private def nonStringCluster : Cluster :=
+  { witnessCluster with
+    replicaSets := [], filter := false,
+    unstructured := [{ gvk := ⟨"foo.io", "v1", "Bar"⟩, m := mkMeta "wl" "u1" true 0, specReplicas := .val 4, observedGeneration := .val 2,
+                       statusReplicas := .val 4, updatedReplicas := .val 1, updateRevision := .wrongType, currentRevision := .absent }] }
+
+example :
+    admissible nonStringCluster = true ∧
+    getWorkloadForRef nonStringCluster ⟨false, some false⟩ "ns1" ⟨"foo.io/v1", "Bar", "wl"⟩ =
+      .wl { name := "wl", kind := "Bar", generation := 2, replicas := 4, stableRevision := "", canaryRevision := "",
+            podTemplateHash := "", revisionLabelKey := "controller-revision-hash", isInRollback := true, inRolloutProgressing := true,
+            isStatusConsistent := true } := by decide
 
 end RV.Props.Finder
